@@ -6,6 +6,7 @@ From Coq Require Import Strings.Byte.
 Require Import BS.Bytes BS.Common BS.Api BS.Layout BS.Format BS.FormatFacts BS.Spec BS.SpecStep BS.Sections.
 Require Import BS.FS BS.FSFacts BS.Meta BS.MetaFacts BS.Header BS.Reader BS.ReaderFacts BS.Index BS.Data BS.DataFacts BS.Seek BS.SeekFacts BS.Series BS.SeriesFacts BS.ReadAllFacts.
 Require Import BS.World BS.Judge BS.JudgeFacts.
+Require Import BS.CacheFacts BS.JudgeCacheFacts.
 Import ListNotations.
 
 (* (I refines S) FULL STATEMENT, proved: for an open series holding any well-formed list l (any payload size,
@@ -44,3 +45,10 @@ Theorem C02_session_accepted_by_judge : forall (name:list byte) (p:nat) (hdr:lis
   accepted World.init_world judge_init (ONew name (N.of_nat p) hdr [] cb :: ops).
 Proof. exact session_accepted. Qed.
 Print Assumptions C02_session_accepted_by_judge.
+
+(* the same for a series WITH cache levels (invariant RepS, props/C08.v): these calls never look at the levels, so what holds
+   for the series without them holds with them *)
+Theorem C02_range_read_with_caches : forall fs s p hdr ihdr l cs, RepS fs s p hdr ihdr l cs -> forall lo hi,
+  read_all s lo hi fs = (fs, Ok (select lo hi l)) \/ (select lo hi l = [] /\ read_all s lo hi fs = (fs, Err ERange)).
+Proof. exact read_all_caches. Qed.
+Print Assumptions C02_range_read_with_caches.
